@@ -305,4 +305,135 @@ theorem mem_initTable (peers : List Peer) (x : Nat) : x ∈ initTable peers ↔ 
   · rintro ⟨p, hp, _, rfl⟩; exact ⟨p, hp, rfl⟩
   · rintro ⟨p, hp, rfl⟩; exact ⟨p, hp, by decide, rfl⟩
 
+/-- Why the selection loop returns a non-empty list: one of its three stop conditions. -/
+theorem peersLoop_nonempty_reason (vrf : Seed) (table : List Nat) (N C end_ : Nat) (excl : List Nat) (i : Nat)
+    (peers : List Nat) (cnt : Nat) (res : List Nat) (hc : cnt = peers.length)
+    (h : peersLoop vrf table N C end_ excl i peers cnt = some res) (hne : res ≠ []) :
+    N ≤ res.length ∨ (end_ = MAX_PROPOSER_COUNT ∧ C < res.length) ∨ (isEC end_ = true ∧ C * 2 < res.length) := by
+  fun_induction peersLoop vrf table N C end_ excl i peers cnt generalizing res
+  case case1 => simp at h; exact absurd h hne
+  case case2 => simp at h
+  case case3 => simp at h; exact absurd h hne
+  case case4 ih => exact ih res hc h hne
+  case case5 i peers cnt _ peerId _ _ _ fresh peers' cnt' hstop =>
+    simp only [Option.some.injEq] at h; subst h
+    simp only [Bool.and_eq_true, decide_eq_true_eq] at hstop
+    left
+    have h1 : cnt' = cnt + 1 := by simp [cnt', hstop.1]
+    have h2 : peers' = peers ++ [peerId] := by simp [peers', hstop.1]
+    have h3 := hstop.2
+    rw [h2]; simp only [List.length_append, List.length_cons, List.length_nil]; omega
+  case case6 i peers cnt _ peerId _ _ _ fresh peers' cnt' _ hstop =>
+    simp only [Option.some.injEq] at h; subst h
+    simp only [Bool.and_eq_true, beq_iff_eq, decide_eq_true_eq] at hstop
+    exact Or.inr (Or.inl ⟨hstop.1.1, hstop.2⟩)
+  case case7 i peers cnt _ peerId _ _ _ fresh peers' cnt' _ _ hstop =>
+    simp only [Option.some.injEq] at h; subst h
+    simp only [Bool.and_eq_true, decide_eq_true_eq] at hstop
+    exact Or.inr (Or.inr ⟨hstop.1, hstop.2⟩)
+  case case8 i peers cnt _ peerId _ _ _ fresh peers' cnt' _ _ _ ih =>
+    refine ih res ?_ h hne
+    by_cases hf : fresh = true
+    · have h1 : cnt' = cnt + 1 := by simp [cnt', hf]
+      have h2 : peers' = peers ++ [peerId] := by simp [peers', hf]
+      rw [h1, h2]; simp only [List.length_append, List.length_cons, List.length_nil]; omega
+    · have h1 : cnt' = cnt := by simp [cnt', hf]
+      have h2 : peers' = peers := by simp [peers', hf]
+      rw [h1, h2]; exact hc
+
+/-- With at most 3C different peers in the position table (C >= 1) and N > 2C — in particular the chain
+    configuration GenesisChainConfig produces for 3, 6, 9, ... peers (N = k, C = k/3) — no participant
+    configuration can be built: after excluding C proposers only 2C peers remain, the endorser loop needs more. -/
+theorem no_config_with_3C_members (blkNum : Nat) (vrf : Seed) (table : List Nat) (N C : Nat) (hC : 1 ≤ C) (hN : 2 * C < N)
+    (hd : ∀ S : List Nat, S.Nodup → (∀ x ∈ S, x ∈ table) → S.length ≤ 3 * C) (cfg : ParticipantConfig) :
+    buildParticipantConfig blkNum vrf table N C ≠ .ok cfg := by
+  intro h
+  have w := build_spec blkNum vrf table N C cfg h
+  unfold buildParticipantConfig at h
+  split at h; · simp at h
+  split at h; · simp at h
+  simp only at h
+  split at h; · simp at h
+  rename_i props hp
+  split at h; · simp at h
+  split at h; · simp at h
+  rename_i ends he
+  split at h; · simp at h
+  rename_i hel
+  split at h; · simp at h
+  split at h; · simp at h
+  simp only [BuildRes.ok.injEq] at h
+  subst h
+  -- the endorsers are more than 2C
+  have hne : ends ≠ [] := by
+    intro e; rw [e] at hel; simp at hel; omega
+  have hreason := peersLoop_nonempty_reason vrf table N C _ _ _ [] 0 ends rfl (by unfold calcParticipantPeers at he; exact he) hne
+  have hlen : 2 * C < ends.length := by
+    rcases hreason with h1 | ⟨h1, _⟩ | ⟨_, h1⟩
+    · omega
+    · simp [MAX_PROPOSER_COUNT, MAX_ENDORSER_COUNT] at h1
+    · omega
+  -- endorsers ++ first C proposers: pairwise different members of the table, more than 3C of them
+  have hS := hd (ends ++ (List.take (C + 1) props).take C) ?_ ?_
+  · have : ((List.take (C + 1) props).take C).length = C := by
+      have := w.p_size; simp only at this
+      rw [List.length_take]; omega
+    rw [List.length_append, this] at hS; omega
+  · rw [List.nodup_append]
+    refine ⟨w.e_nodup, w.p_nodup.sublist (List.take_sublist _ _), ?_⟩
+    intro a ha b hb hab
+    subst hab
+    exact w.e_disj a ha hb
+  · intro x hx
+    rcases List.mem_append.mp hx with h1 | h1
+    · exact w.e_table x h1
+    · exact w.p_table x (List.mem_of_mem_take h1)
+
+theorem nodup_subset_length_le (S L : List Nat) (hn : S.Nodup) (hs : ∀ x ∈ S, x ∈ L) : S.length ≤ L.length := by
+  induction S generalizing L with
+  | nil => simp
+  | cons a r ih =>
+    have hn' := List.nodup_cons.mp hn
+    have ha : a ∈ L := hs a List.mem_cons_self
+    have := ih (L.erase a) hn'.2 (by
+      intro x hx
+      have hxa : x ≠ a := fun e => hn'.1 (e ▸ hx)
+      exact (List.mem_erase_of_ne hxa).mpr (hs x (List.mem_cons_of_mem _ hx)))
+    rw [List.length_erase_of_mem ha] at this
+    have hpos : 0 < L.length := List.length_pos_of_mem ha
+    simp only [List.length_cons]; omega
+
+/-- The chain configuration GenesisChainConfig produces for a pool of 3c peers (c >= 1) admits no participant
+    configuration, whatever the seed, the height and the shuffle hash. -/
+theorem genesis_3c_cannot_build (h : String → Nat → Nat) (peers : List Peer) (c : Nat) (hc : 1 ≤ c)
+    (hk : peers.length = 3 * c) (blkNum : Nat) (vrf : Seed) (cfg : ParticipantConfig) :
+    let cc := genesisChainConfig h peers
+    buildParticipantConfig blkNum vrf cc.posTable cc.N cc.C ≠ .ok cfg := by
+  intro cc
+  have hN : cc.N = 3 * c := hk
+  have hC : cc.C = c := by show peers.length / 3 = c; omega
+  rw [hN, hC]
+  apply no_config_with_3C_members blkNum vrf cc.posTable (3 * c) c hc (by omega)
+  intro S hS hmem
+  have hp : cc.posTable.Perm (initTable peers) := shuffle_perm h peers _ _
+  -- S is a duplicate-free list of peer indices
+  have : S.length ≤ (peers.map (·.index)).length := by
+    apply nodup_subset_length_le S _ hS
+    intro x hx
+    obtain ⟨p, hp1, hp2⟩ := (mem_initTable peers x).mp (hp.mem_iff.mp (hmem x hx))
+    exact List.mem_map.mpr ⟨p, hp1, hp2⟩
+  simpa [hk] using this
+
+/-- The table depends on the order in which the pool is handed over only up to rearrangement: for two orders of
+    the same pool the tables have the same entries with the same multiplicities, and N and C agree. -/
+theorem genesis_order_perm (h : String → Nat → Nat) (p₁ p₂ : List Peer) (hp : p₁.Perm p₂) :
+    (genesisChainConfig h p₁).posTable.Perm (genesisChainConfig h p₂).posTable ∧
+      (genesisChainConfig h p₁).N = (genesisChainConfig h p₂).N ∧ (genesisChainConfig h p₁).C = (genesisChainConfig h p₂).C := by
+  have h1 : (genesisChainConfig h p₁).posTable.Perm (initTable p₁) := shuffle_perm h p₁ _ _
+  have h2 : (genesisChainConfig h p₂).posTable.Perm (initTable p₂) := shuffle_perm h p₂ _ _
+  have h3 : (initTable p₁).Perm (initTable p₂) := List.Perm.flatMap_right _ hp
+  refine ⟨h1.trans (h3.trans h2.symm), ?_, ?_⟩
+  · show p₁.length = p₂.length; exact hp.length_eq
+  · show p₁.length / 3 = p₂.length / 3; rw [hp.length_eq]
+
 end Poly.Proofs.VBFT
